@@ -1,1 +1,32 @@
-(* C01 *) From PMC Require Import Spec.Lemmas.
+(* C01 — CTL model checking returns exactly the satisfying states
+   (CTL/model_checking.py; model Model/CTLmc.v).  Theorems only; proofs in Proofs/CTLP.v
+   (per-operator lemmas checkEX/EU/EG_spec and the induction on fuel), instantiated in
+   Proofs/Assemble.v with the graph, SCC, generalised-Buechi and rewriting lemmas. *)
+From PMC Require Import Spec.Lemmas Proofs.Assemble.
+
+(* For EVERY well-formed total Kripke structure and EVERY CTL state formula the model returns
+   a duplicate-free list that contains exactly the states satisfying f under the path
+   semantics of logics.rst ([holds K s f] = some/every path from s satisfies the state
+   formula f): no satisfying state is missing, no other state is included, and no internal
+   error (in particular the fuel never runs out). *)
+Theorem C01_exact : forall K f, wf_kripke K -> ctl_state f = true ->
+  exists S, ctl_modelcheck K f = Ok S /\ NoDup S /\
+            forall s, In s S <-> (In s (states K) /\ holds K s f).
+Proof. exact ctl_exact. Qed.
+Print Assumptions C01_exact.
+
+(* anything that is not a CTL state formula is rejected with TypeError *)
+Theorem C01_guard : forall K f, ctl_state f = false -> ctl_modelcheck K f = TypeErr.
+Proof. intros K f H. unfold ctl_modelcheck. rewrite H. reflexivity. Qed.
+Print Assumptions C01_guard.
+
+(* non-vacuity: a well-formed total structure, a formula with nested temporal operators,
+   and an answer that is neither empty nor everything *)
+From Coq Require Import String.
+Example C01_example :
+  let K := mkK [(0, [1]); (1, [1; 2]); (2, [0])] [] [(0, ["p"]); (1, ["p"; "q"]); (2, [])]%string in
+  ctl_modelcheck K (FA (FG (FImp (FAtom "q") (FE (FX (FNot (FAtom "p")))))))%string = Ok [0; 1; 2] /\
+  ctl_modelcheck K (FE (FU (FAtom "p") (FA (FX (FAtom "p")))))%string = Ok [0; 2; 1] /\
+  ctl_modelcheck K (FE (FG (FAtom "p")))%string = Ok [1; 0] /\
+  ctl_modelcheck K (FA (FF (FNot (FAtom "p"))))%string = Ok [2].
+Proof. vm_compute. repeat split. Qed.
